@@ -30,6 +30,7 @@ func vUF2(name string, x, y float64) float64
 func vRealModel() bool
 func vRandUnscripted(on bool)
 func vParallelSection(on bool)
+func vRandSameInts(on bool)
 func vConcreteBool(b bool) bool
 func vPar(shared interface{}, a, b func())
 func vRandMark() int
